@@ -49,7 +49,7 @@ def build(ctx, lay, note_lines, tempo_lines, order=None, lnobj="ZZ", extra_heade
     head = ["#PLAYER 1", "#GENRE gen re", "#TITLE The Title", "#ARTIST some one", "#BPM %s" % tk(bpm("0")), "#PLAYLEVEL 12", "#RANK 3", "#TOTAL 300", "#STAGEFILE st.png"]
     if lnobj:
         head.append("#LNOBJ %s" % lnobj)
-    head += ["#WAV01 kick.wav", "#WAV02 sn are.wav", "#WAV0Z z.ogg"]
+    head += ["#WAV01 kick.wav", "#WAV02 sn are.wav", "#WAV0Z z.ogg", "#WAVaa low.wav", "#WAVAA UP.wav"]
     ids = sorted({v for _m, ch, _d, pl in tempo_lines if ch == "08" for v in pl.values()})
     for i in ids:
         head.append("#BPM%s %s" % (i, tk(bpm(i))))
@@ -150,6 +150,7 @@ def note_sets(nl):
     S["two-lines-same-measure"] = [(2, a, 4, {0: "01"}), (2, a, 3, {1: "02", 2: "01"}), (2, b, 48, {1: "01", 47: "0Z"})]
     S["unknown-wav"] = [(0, a, 2, {0: "0A", 1: "01"})]
     S["fine-grid"] = [(0, a, 512, {1: "01", 511: "02"}), (1, b, 101, {3: "01", 100: "ZZ"}), (1, a, 1000, {999: "0Z"})]
+    S["lower-case-ids"] = [(0, a, 4, {0: "aa", 1: "AA", 2: "01"}), (1, b, 2, {0: "aa", 1: "ZZ"})]
     S["every-lane"] = [(0, i, 4, {i % 4: "01"}) for i in range(nl)]
     return S
 
@@ -162,6 +163,7 @@ TEMPO_SETS = {
     "two-in-line": [(1, "08", 8, {1: "01", 6: "02"})],
     "at-zero": [(0, "08", 1, {0: "01"})],
     "48th": [(1, "08", 48, {1: "01"})],
+    "lower-case-id": [(1, "08", 2, {1: "a1"}), (2, "08", 4, {1: "A1"})],
     "later-listed-before-at-zero": [(2, "08", 3, {1: "02"}), (0, "08", 1, {0: "01"})],
     "96th-beat": [(0, "08", 384, {5: "01"}), (1, "03", 32, {27: "5A"})],
     # the two sets below are in the property's domain ("anywhere in a measure") and fail: known finding C04-tempo-change-off-the-snap-grid
@@ -234,7 +236,11 @@ def obligations(tier, seed):
                         obs.append(Obligation("C04/read/%s/%s/tempo=%s/order0" % (lay, nname, tname), partial(ob_read, lay, nlines, tlines, None),
                                               bound="layout %s; note lines %s; tempo lines %s" % (lay, nlines, tlines)))
                     continue
-                if quick and not ((ni + ti + len(lay)) % 5 == 0 or (lay in ("BME", "PMS") and ((nname == "fine-grid" and ti in (0, 2, 7, 8, 9, 10)) or (ti >= 7 and ni in (0, 3, 8)))) or (lay == "BME" and ti in (0, 2, 3)) or (nname == "every-lane" and ti == 1)):
+                special_t = ("lower-case-id", "later-listed-before-at-zero", "96th-beat")
+                if quick and not ((ni + ti + len(lay)) % 5 == 0
+                                  or (lay in ("BME", "PMS") and ((nname in ("fine-grid", "lower-case-ids") and tname in ("none", "ext-mid") + special_t)
+                                                                 or (tname in special_t and nname in ("hits", "ln-across-measures", "every-lane"))))
+                                  or (lay == "BME" and tname in ("none", "ext-mid", "int+ext")) or (nname == "every-lane" and tname == "ext-measure-line")):
                     continue
                 n = len(nlines) + len(tlines)
                 orders = [None, tuple(reversed(range(n)))]
